@@ -11,7 +11,7 @@
 open Model
 open Conv
 
-type elt = EI of Model.z | EL of elt list | EBad
+type elt = EI of Model.z | EL of elt list | EBad | EErr   (* EErr: an item that is a raised error *)
 
 (* a stream value: its state is captured in the closures (extracted step/len functions) *)
 type strm = {
@@ -19,6 +19,7 @@ type strm = {
   len : unit -> Model.z option outcome;
   index_ovr : (Model.z -> elt outcome) option;   (* Repeat/Cycle::pythonic_index_isize *)
   rev_ovr : (unit -> strm) option;               (* Repeat/Cycle::reversed *)
+  slice_ovr : (Model.z option -> Model.z option -> elt rsliced outcome) option;  (* Repeat::pythonic_slice *)
   infinite : bool;
 }
 
@@ -27,6 +28,7 @@ let rec show_elt = function
   | EI z -> "I" ^ string_of_coqz z
   | EL l -> "L[" ^ String.concat "," (List.map show_elt l) ^ "]"
   | EBad -> "!panic"
+  | EErr -> "!err"
 let show_list tag l = tag ^ "[" ^ String.concat "," (List.map show_elt l) ^ "]"
 let show (f : 'a -> string) (o : 'a outcome) = match o with
   | Ok a -> "ok " ^ f a | Err _ -> "err" | Panic -> "panic" | OutOfFuel -> "fuel"
@@ -39,39 +41,40 @@ let of_pick (o : elt list outcome) : elt = match o with Ok l -> EL l | _ -> EBad
 
 let rec mk_range r = { step = (fun () -> let (o, r') = range_step r in
                                   ((match o with Some z -> Some (EI z) | None -> None), mk_range r'));
-                       len = (fun () -> Ok (range_len r)); index_ovr = None; rev_ovr = None;
+                       len = (fun () -> Ok (range_len r)); index_ovr = None; rev_ovr = None; slice_ovr = None;
                        infinite = (match range_len r with None -> true
                                    | Some n -> BZ.gt (z_of_coqz n) (BZ.of_int 5000)) (* too long to list: prefixes only *) }
 let rec mk_wvec w = { step = (fun () -> let (o, w') = wvec_step w in (o, mk_wvec w'));
-                      len = (fun () -> Ok (wvec_len w)); index_ovr = None; rev_ovr = None; infinite = false }
+                      len = (fun () -> Ok (wvec_len w)); index_ovr = None; rev_ovr = None; slice_ovr = None; infinite = false }
 let rec mk_perm b s = { step = (fun () -> let (o, s') = perm_step s in
                                   ((match o with Some v -> Some (of_pick (pick b v)) | None -> None), mk_perm b s'));
-                        len = (fun () -> perm_len s); index_ovr = None; rev_ovr = None; infinite = false }
+                        len = (fun () -> perm_len s); index_ovr = None; rev_ovr = None; slice_ovr = None; infinite = false }
 let rec mk_comb b s =
   let n = Model.length b in
   let self_step st = comb_step n st in
   { step = (fun () -> let (o, s') = comb_step n s in
                ((match o with Some v -> Some (of_pick (pick b v)) | None -> None), mk_comb b s'));
-    len = (fun () -> default_len self_step big_fuel s); index_ovr = None; rev_ovr = None; infinite = false }
+    len = (fun () -> default_len self_step big_fuel s); index_ovr = None; rev_ovr = None; slice_ovr = None; infinite = false }
 let rec mk_subs b s = { step = (fun () -> let (o, s') = sub_step s in
                                   ((match o with Some v -> Some (EL (mask_select v b)) | None -> None), mk_subs b s'));
-                        len = (fun () -> sub_len s); index_ovr = None; rev_ovr = None; infinite = false }
+                        len = (fun () -> sub_len s); index_ovr = None; rev_ovr = None; slice_ovr = None; infinite = false }
 let rec mk_cart b s =
   let m = Model.length b in
   { step = (fun () -> let (o, s') = cart_step m s in
                ((match o with Some v -> Some (of_pick (pick b v)) | None -> None), mk_cart b s'));
-    len = (fun () -> cart_len m s); index_ovr = None; rev_ovr = None; infinite = false }
+    len = (fun () -> cart_len m s); index_ovr = None; rev_ovr = None; slice_ovr = None; infinite = false }
 let rec mk_repeat x = { step = (fun () -> let (o, x') = repeat_step x in (o, mk_repeat x'));
                         len = (fun () -> infinite_len); index_ovr = Some (fun i -> repeat_index x i);
                         rev_ovr = Some (fun () -> mk_repeat x);
+                        slice_ovr = Some (fun lo hi -> repeat_slice (coqz_of_string "1099511627776") x lo hi);
                         infinite = true }
 let rec mk_cycle c = { step = (fun () -> let (o, c') = cycle_step c in (o, mk_cycle c'));
                        len = (fun () -> infinite_len); index_ovr = Some (fun i -> cycle_index c i);
-                       rev_ovr = Some (fun () -> mk_cycle (cycle_reversed c));
+                       rev_ovr = Some (fun () -> mk_cycle (cycle_reversed c)); slice_ovr = None;
                        infinite = true }
 let dbl = function EI z -> EI (Z.add (Z.mul z (zi 2)) (zi 1)) | e -> e
 let rec mk_iterate x = { step = (fun () -> let (o, x') = iterate_step dbl x in (o, mk_iterate x'));
-                         len = (fun () -> infinite_len); index_ovr = None; rev_ovr = None; infinite = true }
+                         len = (fun () -> infinite_len); index_ovr = None; rev_ovr = None; slice_ovr = None; infinite = true }
 
 let sstep (s : strm) = s.step ()
 let even = function EI z -> (match Z.modulo z (zi 2) with Z0 -> true | _ -> false) | _ -> false
@@ -79,17 +82,41 @@ let even = function EI z -> (match Z.modulo z (zi 2) with Z0 -> true | _ -> fals
 let rec mk_map (a : strm adapted) inf =
   let st x = map_step sstep dbl x in
   { step = (fun () -> let (o, a') = st a in (o, mk_map a' inf));
-    len = (fun () -> if inf then OutOfFuel else default_len st big_fuel a); index_ovr = None; rev_ovr = None; infinite = inf }
+    len = (fun () -> if inf then OutOfFuel else default_len st big_fuel a); index_ovr = None; rev_ovr = None; slice_ovr = None; infinite = inf }
 let filter_fuel = nat_of_int 2000
 let rec mk_filter (a : strm adapted) inf =
   let st x = match filter_step sstep even filter_fuel x with
     | Ok r -> r | _ -> (None, AStopped) in
   { step = (fun () -> let (o, a') = st a in (o, mk_filter a' inf));
-    len = (fun () -> if inf then OutOfFuel else default_len st big_fuel a); index_ovr = None; rev_ovr = None; infinite = inf }
+    len = (fun () -> if inf then OutOfFuel else default_len st big_fuel a); index_ovr = None; rev_ovr = None; slice_ovr = None; infinite = inf }
 let rec mk_zip (a : strm list adapted) inf =
   let st x = match zip_step sstep x with (Some es, a') -> (Some (EL es), a') | (None, a') -> (None, a') in
   { step = (fun () -> let (o, a') = st a in (o, mk_zip a' inf));
-    len = (fun () -> if inf then OutOfFuel else default_len st big_fuel a); index_ovr = None; rev_ovr = None; infinite = inf }
+    len = (fun () -> if inf then OutOfFuel else default_len st big_fuel a); index_ovr = None; rev_ovr = None; slice_ovr = None; infinite = inf }
+
+(* lazy_zip with a function: g folds the heads as ((a * 100 + b) * 100 + c) ... *)
+let gfold (es : elt list) : elt =
+  List.fold_left (fun acc e -> match acc, e with EI a, EI b -> EI (Z.add (Z.mul a (zi 100)) b) | _ -> EBad) (EI (zi 0)) es
+let rec mk_zipf (a : strm list adapted) inf =
+  let st x = zipf_step sstep gfold x in
+  { step = (fun () -> let (o, a') = st a in (o, mk_zipf a' inf));
+    len = (fun () -> if inf then OutOfFuel else default_len st big_fuel a); index_ovr = None; rev_ovr = None; slice_ovr = None; infinite = inf }
+(* callbacks that raise on the element k *)
+let item = function Ok y -> y | _ -> EErr
+let rec mk_emap k (a : strm adapted) inf =
+  let f e = if e = EI k then Err EValue else Ok (dbl e) in
+  let st x = let (o, a') = emap_step sstep f x in ((match o with Some r -> Some (item r) | None -> None), a') in
+  { step = (fun () -> let (o, a') = st a in (o, mk_emap k a' inf));
+    len = (fun () -> if inf then OutOfFuel else default_len st big_fuel a); index_ovr = None; rev_ovr = None; slice_ovr = None; infinite = inf }
+let rec mk_efilter k (a : strm adapted) inf =
+  let p e = if e = EI k then Err EValue else Ok (even e) in
+  let st x = match x with
+    | AStopped -> (None, AStopped)
+    | AOk s -> (match efilter_loop sstep p filter_fuel s with
+                | Ok (o, a') -> ((match o with Some r -> Some (item r) | None -> None), a')
+                | _ -> (None, AStopped)) in
+  { step = (fun () -> let (o, a') = st a in (o, mk_efilter k a' inf));
+    len = (fun () -> if inf then OutOfFuel else default_len st big_fuel a); index_ovr = None; rev_ovr = None; slice_ovr = None; infinite = inf }
 
 exception Ctor_err
 (* parse a stream expression from a token list *)
@@ -115,6 +142,13 @@ let rec parse toks : strm * string list =
     let rec go k r acc = if k = 0 then (List.rev acc, r) else let (s, r') = parse r in go (k - 1) r' (s :: acc) in
     let (ss, r') = go (int k) r [] in
     (mk_zip (AOk ss) (List.for_all (fun s -> s.infinite) ss), r')
+  | "zipf" :: k :: r ->
+    let rec go k r acc = if k = 0 then (List.rev acc, r) else let (s, r') = parse r in go (k - 1) r' (s :: acc) in
+    let (ss, r') = go (int k) r [] in
+    (mk_zipf (AOk ss) (List.for_all (fun s -> s.infinite) ss), r')
+  (* (the driver only builds raising adaptors that end: finite inner stream, or the raising element occurs) *)
+  | "emap" :: k :: r -> let (s, r') = parse r in (mk_emap (coqz_of_string k) (AOk s) false, r')
+  | "efilter" :: k :: r -> let (s, r') = parse r in (mk_efilter (coqz_of_string k) (AOk s) false, r')
   | _ -> failwith "bad stream"
 
 (* I<int> | L[e,e,...] (nested) *)
@@ -163,6 +197,12 @@ let observe (s : strm) (obs : string list) : string =
      | Some f, Some n -> show show_elt (f n)
      | Some _, None -> "err"
      | None, _ -> show show_elt (obs_index sstep fuel s (idx_of i)))
+  | ["slice"; a; b] when s.slice_ovr <> None ->
+    let f = match s.slice_ovr with Some f -> f | None -> assert false in
+    (match obj_to_isize_slice_index (oidx_of a), obj_to_isize_slice_index (oidx_of b) with
+     | Ok lo, Ok hi ->
+       show (fun r -> match r with RSelf -> show_stream (force sstep fuel s) | RList l -> show_list "L" l) (f lo hi)
+     | _ -> "err")
   | ["slice"; a; b] ->
     show (fun r -> match r with SStream l -> show_stream l | SList l -> show_list "L" l)
       (obs_slice sstep fuel s (oidx_of a) (oidx_of b))
@@ -185,6 +225,22 @@ let observe (s : strm) (obs : string list) : string =
      | None -> "badheap")
   | _ -> "badobs"
 
+(* an answer that contains a raised error is that error; a stream value prints it as its last item *)
+let contains s sub =
+  let n = String.length s and m = String.length sub in
+  let rec go i = i + m <= n && (String.sub s i m = sub || go (i + 1)) in go 0
+let with_errors (obs : string list) (ans : string) : string =
+  if contains ans "!err" && not (String.length ans > 4 && String.sub ans 0 4 = "ok T") then "err" else ans
+(* `x in s` stops with the error when it reaches the error item before finding x *)
+let observe_e (s : strm) (obs : string list) : string =
+  let fuel = if s.infinite then inf_fuel else big_fuel in
+  match obs with
+  | ["in"; e] when List.mem EErr (force sstep fuel s) ->
+    let x = parse_elt e in
+    let rec go = function [] -> "ok I0" | EErr :: _ -> "err" | y :: r -> if y = x then "ok I1" else go r in
+    go (force sstep fuel s)
+  | _ -> with_errors obs (observe s obs)
+
 let split_on_semicolon toks =
   let rec go cur acc = function
     | [] -> List.rev (List.rev cur :: acc)
@@ -198,6 +254,6 @@ let () = serve (fun line ->
     (try
        let (s, rest) = parse st in
        if rest <> [] then "badcase"
-       else observe (drop_prefix sstep (nat_of_int (int_of_string k)) s) obs
+       else observe_e (drop_prefix sstep (nat_of_int (int_of_string k)) s) obs
      with Ctor_err -> "ctor-err")
   | _ -> "badcase")
